@@ -1,7 +1,7 @@
 #!/bin/bash
 # tools_seed_verify.sh <prop-lower e.g. c32> : verify the three candidate seeded changes of /tmp/seed-<prop>/ in the scratch worktree /tmp/wt-<prop>
 # For each k: demo exits 0 on the clean tree, 1 with the patch; full test suite with the patch gives the baseline result.
-p=$1; wt=/tmp/wt-$p; out=/tmp/seed-$p
+p=$1; pre=${2:-}; wt=/tmp/wt${pre}-$p; out=/tmp/seed${pre}-$p
 cd $wt || exit 2
 git checkout -q -- . ; git clean -fdq -e tests/data >/dev/null 2>&1
 for k in 1 2 3; do
